@@ -55,6 +55,8 @@ func newZWorld(p *Program) *zworld {
 }
 
 type zfn struct {
+	convBusy  map[*ssa.Convert]bool
+	convExact map[*ssa.Convert]bool
 	w     *zworld
 	fn    *ssa.Function
 	facts []anchoredFact
@@ -298,6 +300,39 @@ func (z *zfn) termD(v ssa.Value, d int) lin {
 			}
 			if exact {
 				return z.termD(x.X, d+1)
+			}
+			// a sign change that provably keeps the value: signed -> unsigned of a value known to be
+			// non-negative here, unsigned -> signed of a value known to fit (decided once per instruction)
+			if fs != ts && tb >= fb {
+				if keep, done := z.convExact[x]; done {
+					if keep {
+						return z.termD(x.X, d+1)
+					}
+				} else if !z.convBusy[x] {
+					if z.convBusy == nil {
+						z.convBusy = map[*ssa.Convert]bool{}
+						z.convExact = map[*ssa.Convert]bool{}
+					}
+					z.convBusy[x] = true
+					src := z.termD(x.X, d+1)
+					var goal lin
+					if fs && !ts {
+						goal = src.scale(-1) // src >= 0
+					} else {
+						goal = src.clone()
+						if tb >= 64 {
+							goal.c -= 1<<63 - 1
+						} else {
+							goal.c -= int64(1)<<uint(tb-1) - 1
+						}
+					}
+					keep := entails(z.factsAt(x), goal)
+					z.convBusy[x] = false
+					z.convExact[x] = keep
+					if keep {
+						return src
+					}
+				}
 			}
 			// the same conversion of the same operand is the same value; a same-width sign change is
 			// operand -/+ 2^N·k with k in {0,1}
